@@ -368,6 +368,17 @@ def tensors_equal_bits(a, b) -> bool:
     return a.dtype == b.dtype and tuple(a.shape) == tuple(b.shape) and bool(torch.equal(a, b))
 
 
+def same_values(a, b) -> bool:
+    """bit-equal, NaN positions included (data-dependent nodes such as predictions_event hold NaN for censored rows)"""
+    import torch
+    if tensors_equal_bits(a, b):
+        return True
+    if a.dtype != b.dtype or tuple(a.shape) != tuple(b.shape) or not a.is_floating_point():
+        return False
+    na, nb = torch.isnan(a), torch.isnan(b)
+    return bool(torch.equal(na, nb) and torch.equal(a[~na], b[~nb]))
+
+
 def trajectories(m, df):
     """estimate on an age grid for three hand-written individuals"""
     import numpy as np
@@ -523,7 +534,7 @@ def oracle_roundtrip(run: Run, m, df, spec, tmp: Path, idx: int):
         run.fail(f"save-load:estimate-raises:{type(e).__name__}", str(e)[:200], small)
 
 
-def oracle_self_consistent(run: Run, m, spec):
+def oracle_self_consistent(run: Run, m, spec, when: str = "after the fit"):
     """after a fit: population variables are bit-for-bit the mode of their prior under the final parameters, and every
     derived value read from the model's state equals its from-scratch value in a fresh state."""
     import torch
@@ -536,7 +547,8 @@ def oracle_self_consistent(run: Run, m, spec):
         mode = var.prior.mode.call(st)
         loc = st[loc_name]
         if not (torch.equal(st[pp], mode) and torch.equal(st[pp], loc.expand(st[pp].shape))):
-            run.fail("self-consistency:population-not-at-prior-mode", f"after the fit {pp} differs from the mode of its prior", small,
+            run.fail("self-consistency:population-not-at-prior-mode", f"{when} {pp} differs from the mode of its prior "
+                     f"under the model's current parameters ({loc_name})", small,
                      expected=loc.reshape(-1).tolist()[:4], observed=st[pp].reshape(-1).tolist()[:4])
     # from-scratch: a new State on the same DAG with the same parameters and population values
     fresh = State(st.dag)
@@ -556,8 +568,224 @@ def oracle_self_consistent(run: Run, m, spec):
         checked += 1
         av, bv = getattr(a, "value", a), getattr(b, "value", b)
         if not (av.shape == bv.shape and torch.equal(av, bv)):
-            run.fail("self-consistency:stale-derived-value", f"{n} read from the fitted model differs from its from-scratch value", small)
+            run.fail("self-consistency:stale-derived-value", f"{when}: {n} read from the model differs from its from-scratch value", small)
     run.count("self-consistency", "derived-values-compared", checked)
+
+
+# ----------------------------------------------------------------------------- histories on ONE model object
+
+
+def history_specs(run: Run, thorough: bool):
+    """Every shipped kind x source dimension x noise model (3 features; thorough: also 2 and 4), each with several histories
+    of load / load_parameters / fit on one model object."""
+    rng = run.rng("histories")
+    cfgs = []
+    for kind in ["logistic", "linear", "shared_speed_logistic", "joint", "mixture_logistic"]:
+        for nf in ([3] if not thorough else [2, 3, 4]):
+            sds = [s for s in (0, 1, 2) if s < nf]
+            if kind == "mixture_logistic":
+                sds = [s for s in sds if s >= 1]
+            noises = ["gaussian-scalar", "gaussian-diagonal"]
+            if kind == "logistic":
+                noises.append("bernoulli")
+            if kind == "joint":
+                noises = [None, "gaussian-diagonal"]
+            if kind == "mixture_logistic":
+                noises = [None, "gaussian-scalar", "gaussian-diagonal"]
+            for sd in sds:
+                for noise in noises:
+                    cfgs.append(dict(kind=kind, n_feat=nf, source_dimension=sd, noise=noise, dimension_given=True,
+                                     data_seed=rng.randrange(1, 50)))
+    out = []
+    for c in cfgs:
+        a, b, d = (rng.randrange(10 ** 6) for _ in range(3))
+        fit = ["fit", rng.choice([1, 2]), rng.randrange(100)]
+        hs = [
+            [["load", a], ["load_parameters", b]],                       # the model already holds (other) parameters
+            [fit, ["load_parameters", b]],                                # ... from a fit
+            [["load", a], ["load_parameters", a]],                       # same values twice
+        ]
+        extra = [
+            [["load", a], ["load_parameters", b], ["load_parameters", d]],
+            [["load", a], ["load_parameters", b], fit],
+            [fit, ["load_parameters", b], ["load_parameters", b]],
+            [["load", a], fit, ["load_parameters", d]],
+        ]
+        hs += extra if thorough else [rng.choice(extra)]
+        for steps in hs:
+            out.append(dict(spec=c, steps=steps))
+    return out
+
+
+class _SetRecorder:
+    """Records the names assigned through State.__setitem__ (any State object) while active; restores on exit."""
+
+    def __enter__(self):
+        from leaspy.variables.state import State
+        self.State, self.orig, self.names = State, State.__setitem__, []
+        rec, orig = self.names, self.orig
+
+        def wrapped(st, name, value):
+            rec.append(name)
+            return orig(st, name, value)
+        State.__setitem__ = wrapped
+        return self
+
+    def __exit__(self, *exc):
+        self.State.__setitem__ = self.orig
+        return False
+
+
+def _snapshot(m, tmp: Path, tag: str):
+    """what an observer can read without data: parameters, population variables, derived values; and the saved file"""
+    import torch
+    from leaspy.variables.specs import LinkedVariable
+    out = {}
+    for n in list(m.parameters_names) + list(m.population_variables_names) + [k for k, v in m.dag.items() if isinstance(v, LinkedVariable)]:
+        try:
+            v = m.state[n]
+        except Exception:
+            continue
+        out[n] = getattr(v, "value", v).detach().clone()
+    p = tmp / f"{tag}.json"
+    with warnings.catch_warnings():
+        warnings.simplefilter("ignore")
+        m.save(str(p))
+    return out, p.read_bytes()
+
+
+def oracle_history(run: Run, hist: dict, tmp: Path, idx: int, lp_cases: list | None = None, lp_meta: list | None = None):
+    """One history on ONE model object, then: population variables == prior modes bit-for-bit, derived values == from-scratch,
+    everything readable == a FRESH model loaded from the last parameters (<= 1e-6), save -> load -> save byte-identical with
+    `parameters` / `mixing_matrix` in the file equal to the last / recomputed ones."""
+    import numpy as np
+    import torch
+    from harness import synth
+    from leaspy.models import BaseModel
+    from leaspy.variables.specs import LinkedVariable, PopulationLatentVariable
+    spec, steps = hist["spec"], hist["steps"]
+    cache = {}
+
+    def written(seed):
+        """(file, dictionary) of a model of this configuration with hand-written parameter set `seed`"""
+        if seed not in cache:
+            mm, _ = build_model({**spec, "hand_seed": seed})
+            k, d = real_to_dict(mm)
+            if k != "ok":
+                raise RuntimeError(f"to_dict raised {d}")
+            f = tmp / f"h{idx}_p{seed}.json"
+            f.write_text(json.dumps(d, indent=2))
+            cache[seed] = (f, d)
+        return cache[seed]
+
+    def bad(what_sig, what, **kw):
+        run.fail(f"self-consistency:history:{what_sig}", what, hist, **kw)
+
+    m, df, last = None, None, None
+    try:
+        for st in steps:
+            op = st[0]
+            with warnings.catch_warnings(), quiet():
+                warnings.simplefilter("ignore")
+                if op == "load":
+                    f, _ = written(st[1])
+                    m = BaseModel.load(str(f))
+                    last = ("params", st[1])
+                elif op == "fit":
+                    if m is None:
+                        m, df = build_model({**spec, "fit_iter": st[1], "fit_seed": st[2]})
+                    else:
+                        if df is None:
+                            df = synth.make_df(n_ind=8, n_feat=spec["n_feat"], seed=spec.get("data_seed", 1), joint=spec["kind"] == "joint",
+                                               kind="linear" if spec["kind"] == "linear" else "logistic",
+                                               binary=(spec.get("noise") == "bernoulli"))
+                        m.fit(synth.make_data(df, spec["kind"]), "mcmc_saem", n_iter=st[1], seed=st[2], progress_bar=False)
+                    last = ("fit",)
+                elif op == "load_parameters":
+                    _, d = written(st[1])
+                    before = _snapshot(m, tmp, f"h{idx}_before") if last == ("params", st[1]) else None
+                    pops = list(m.state.dag.sorted_variables_by_type[PopulationLatentVariable])
+                    provided = [q for q in m.parameters_names if q in d["parameters"]]
+                    with _SetRecorder() as rec:
+                        m.load_parameters(copy.deepcopy(d["parameters"]))
+                    if lp_cases is not None:
+                        lp_cases.append(f"(({coq_list([cs(q) for q in provided])}, {coq_list([cs(q) for q in pops])}), "
+                                        f"{coq_list([cs(q) for q in rec.names])})")
+                        lp_meta.append(dict(hist, at_step=steps.index(st), provided=provided, population=pops, observed_sets=rec.names))
+                    if before is not None:
+                        after = _snapshot(m, tmp, f"h{idx}_after")
+                        same = before[1] == after[1] and set(before[0]) == set(after[0]) and all(
+                            same_values(before[0][k], after[0][k]) for k in before[0])
+                        if not same:
+                            diff = [k for k in before[0] if k not in after[0] or not same_values(before[0][k], after[0][k])]
+                            bad("load_parameters-same-values-changes-the-model", "load_parameters with the values the model already "
+                                "holds changed what it reads / saves", expected="identical reads and file", observed=diff[:6])
+                    last = ("params", st[1])
+                else:
+                    raise ValueError(f"unknown step {op}")
+            run.count("history-step", op)
+    except Exception as e:  # noqa
+        if isinstance(e, ValueError) and "Can not reset the variable" in str(e):
+            run.count("skipped", "unmodelled:duplicate-observation-variable")
+            return False
+        bad(f"{steps[len(steps) - 1][0]}-raises:{type(e).__name__}", f"history step raised {type(e).__name__}: {str(e)[:200]}")
+        return False
+    n_before = len(run._fails) + len(run._known_hit)
+    # (a) population variables == prior modes bit-for-bit; derived values == from-scratch values in a fresh State
+    oracle_self_consistent(run, m, hist, when="after the history")
+    # (b) against a FRESH model built from the last parameters
+    if last and last[0] == "params":
+        f, d = written(last[1])
+        with warnings.catch_warnings(), quiet():
+            warnings.simplefilter("ignore")
+            fresh = BaseModel.load(str(f))
+        for k, v in fresh.parameters.items():
+            if k not in m.parameters or not tensors_equal_bits(m.parameters[k], v):
+                bad("parameters-not-the-last-ones", f"parameter {k} is not the value given to the last load_parameters",
+                    expected=v.reshape(-1).tolist()[:4], observed=(m.parameters[k].reshape(-1).tolist()[:4] if k in m.parameters else None))
+        names = list(fresh.population_variables_names) + [k for k, v in fresh.dag.items() if isinstance(v, LinkedVariable)]
+        n_cmp = 0
+        for n in names:
+            try:
+                b = fresh.state[n]
+            except Exception:
+                continue
+            a = m.state[n]
+            av, bv = getattr(a, "value", a).detach().double(), getattr(b, "value", b).detach().double()
+            n_cmp += 1
+            if av.shape != bv.shape or not torch.allclose(av, bv, atol=1e-6, rtol=0, equal_nan=True):
+                bad("differs-from-fresh-model", f"`{n}` read from the model after the history differs from a fresh model loaded "
+                    "from the same parameters (stale population variables / derived values)",
+                    expected=bv.reshape(-1).tolist()[:4], observed=av.reshape(-1).tolist()[:4])
+                break
+        run.count("history", "values-compared-with-fresh-model", n_cmp)
+        try:
+            ta, tb = trajectories(m, df), trajectories(fresh, df)
+            for k in ta:
+                if ta[k].shape != tb[k].shape or not np.allclose(ta[k], tb[k], atol=1e-6, rtol=0, equal_nan=True):
+                    bad("trajectories-differ-from-fresh-model", "estimate() after the history differs from a fresh model loaded from "
+                        "the same parameters", expected=tb[k].reshape(-1)[:4].tolist(), observed=ta[k].reshape(-1)[:4].tolist())
+                    break
+        except Exception as e:  # noqa
+            bad(f"estimate-raises:{type(e).__name__}", str(e)[:200])
+        # the file the model writes: parameters are the last ones, mixing_matrix the recomputed one
+        k, dm = real_to_dict(m)
+        if k != "ok":
+            bad(f"to_dict-raises:{dm}", "to_dict raised after the history")
+        else:
+            for q, v in d["parameters"].items():
+                w = dm["parameters"].get(q)
+                if q == "mixing_matrix":
+                    ref = fresh.state["mixing_matrix"].detach().double().numpy()
+                    if w is None or np.asarray(w).shape != ref.shape or not np.allclose(np.asarray(w, dtype=float), ref, atol=1e-6, rtol=0):
+                        bad("saved-mixing-matrix-not-recomputed", "mixing_matrix written by to_dict after the history is not the one "
+                            "derived from the parameters written beside it", expected=ref.tolist(), observed=w)
+                elif w != v:
+                    bad("saved-parameters-not-the-last-ones", f"`{q}` written by to_dict is not the value given to the last "
+                        "load_parameters", expected=v, observed=w)
+    # (c) save -> load -> save (bytes, bits, trajectories, mixing_matrix in the file vs recomputed by the reloaded model)
+    oracle_roundtrip(run, m, df, hist, tmp, 10_000 + idx)
+    return len(run._fails) + len(run._known_hit) == n_before
 
 
 # ----------------------------------------------------------------------------- float32 <-> json
@@ -861,6 +1089,29 @@ def _check(run: Run, thorough: bool, version: str, tmp: Path):
     run.extra["t2_save_cases"] = len(save_cases)
     run.extra["t2_load_cases"] = len(load_cases)
 
+    # --- histories on ONE model object: load / load_parameters / fit sequences for every kind x sources x noise
+    hists = history_specs(run, thorough)
+    lp_cases, lp_meta, n_ok = [], [], 0
+    for j, h in enumerate(hists):
+        shape = "+".join(st[0] for st in h["steps"])
+        run.count("history", shape)
+        run.count("history-config", f"{h['spec']['kind']}/s{h['spec']['source_dimension']}/{h['spec']['noise']}")
+        run.case(("history", json.dumps(h, sort_keys=True)), nontrivial=True)
+        if oracle_history(run, h, tmp, j, lp_cases, lp_meta):
+            n_ok += 1
+    if hists:
+        run.sample(dict(kind="history", **hists[0]))
+        run.sample(dict(kind="history", **hists[len(hists) // 2]))
+    run.extra["histories"] = dict(run=len(hists), clean=n_ok, load_parameters_traces=len(lp_cases))
+    hdr2 = ("From Coq Require Import List String.\nFrom Leaspy Require Import Io.History Io.HistoryExec.\n"
+            "Import ListNotations.\nOpen Scope string_scope.\nOpen Scope list_scope.\n")
+    bad = run.vm_bad_indices("lptrace", hdr2, "(list string * list string) * list string", lp_cases, "lp_trace_ok", shard=80)
+    for i in bad or []:
+        run.fail("tie:load_parameters-trace", "the State assignments recorded during load_parameters are not those of the model's "
+                 "script (provided parameters in order, then EVERY population variable)", lp_meta[i],
+                 expected=lp_meta[i]["provided"] + lp_meta[i]["population"], observed=lp_meta[i]["observed_sets"],
+                 kind="broken-correspondence")
+
     # --- float32 <-> json (tested library fact) and the concrete float32 rounding used by the executable model
     x = float_roundtrip(run, thorough)
     rng = run.rng("r32")
@@ -915,6 +1166,21 @@ def replay(run: Run, path: str):
         print("load of the recorded settings:", k, r if k == "err" else type(r).__name__)
         print("recorded observation:", inp.get("observed"))
         return 0 if (k == "ok") == (inp.get("observed") == "ok") and (k == "ok" or r == inp.get("observed")) else 1
+    if "steps" in inp:
+        SCRATCH.mkdir(parents=True, exist_ok=True)
+        tmp = SCRATCH / "replay"
+        tmp.mkdir(parents=True, exist_ok=True)
+        try:
+            print("replaying on ONE model object:", " -> ".join(f"{st[0]}({', '.join(map(str, st[1:]))})" for st in inp["steps"]),
+                  "| configuration:", inp["spec"])
+            oracle_history(run, dict(spec=inp["spec"], steps=inp["steps"]), tmp, 0)
+        finally:
+            shutil.rmtree(SCRATCH, ignore_errors=True)
+        hits = [f for f in run._fails] + [dict(signature=s, what=w) for s, w in run._known_hit.items()]
+        for f in hits:
+            print("REPLAY", f["signature"], "-", f["what"], "| expected", f.get("expected"), "| observed", f.get("observed"))
+        print("REPLAY", "FAILS" if hits else "passes")
+        return 1 if hits else 0
     if "kind" not in inp:
         print("replay: this file records a broken obligation, re-running the check")
         return main(run)
